@@ -69,12 +69,17 @@ class Controller:
         self.loop = None
         self.q = queue.Queue()
         self.nsteps = 0
+        self.lost = []             # (job, op): helper function raised and the tree drops the exception
+        self.foreign = []          # jobs whose dependencychanged ran outside the scheduler loop thread
+        self.loop_tid = None
+        self.helper_exc_delivered = True
 
     # ---------------------------------------------------------------- installation
     def install(self):
         import experimaestro.utils.asyncio as ua
         import experimaestro.scheduler.base as base
         orig = ua.asyncThreadcheck
+        self.helper_exc_delivered = probe_helper_exception(orig)
         n = 0
         for name, mod in list(sys.modules.items()):
             if name.startswith("experimaestro") and mod is not None:
@@ -144,9 +149,37 @@ class Controller:
                 try:
                     p["future"].set_result(p["func"](*p["args"], **p["kwargs"]))
                 except BaseException as e:  # noqa
-                    p["future"].set_exception(e)
+                    # what the tree's asyncThreadcheck does with an exception of the helper function (probed at
+                    # installation): delivered to the awaiting coroutine, or the future is left pending for ever
+                    if self.helper_exc_delivered:
+                        p["future"].set_exception(e)
+                    else:
+                        self.lost.append((p["job"], p["op"]))
 
         self.loop.call_soon_threadsafe(run)
+
+
+def probe_helper_exception(orig):
+    """does asyncThreadcheck of the tree under test deliver an exception of the helper function to the awaiting
+    coroutine (True) or leave the future pending (False)"""
+    def boom():
+        raise RuntimeError("probe")
+
+    async def body():
+        try:
+            await asyncio.wait_for(orig("probe", boom), 1.0)
+        except asyncio.TimeoutError:
+            return False
+        except RuntimeError:
+            return True
+        return True
+
+    hook = threading.excepthook
+    threading.excepthook = lambda *a: None
+    try:
+        return asyncio.run(body())
+    finally:
+        threading.excepthook = hook
 
 
 CTL = Controller()
@@ -185,6 +218,7 @@ def make_factory(ctl):
             self.v_index = plan["index"]
             self.v_code = plan["code"]
             self.v_adopt = plan.get("adopt")
+            self.v_raise = plan.get("raises")
             if plan.get("marker"):
                 self.donepath.parent.mkdir(parents=True, exist_ok=True)
                 self.donepath.touch()
@@ -193,6 +227,16 @@ def make_factory(ctl):
 
         async def aio_process(self):
             return AdoptedProcess(self) if self.v_adopt else None
+
+        def done_handler(self):
+            if self.v_raise == "doneh":
+                raise RuntimeError("watched output callback failed")
+            return super().done_handler()
+
+        def dependencychanged(self, dependency, oldstatus, status):
+            if ctl.loop_tid is not None and threading.get_ident() != ctl.loop_tid:
+                ctl.foreign.append(self.v_index)
+            return super().dependencychanged(dependency, oldstatus, status)
 
         async def aio_run(self):
             from experimaestro.scheduler.base import JobDependency
@@ -353,6 +397,23 @@ def run_workload(w):
         xp = experiment(wd, "x", port=-1)
         xp.__enter__()
         ctl.loop = xp.central.loop
+        ctl.lost, ctl.foreign, ctl.loop_tid = [], [], None
+        ctl.loop.call_soon_threadsafe(lambda: setattr(ctl, "loop_tid", threading.get_ident()))
+
+        class RaisingListener:
+            """a listener that fails for the jobs planned so (`raises: listener`)"""
+            def job_submitted(self, job):
+                pass
+
+            def job_state(self, job):
+                if getattr(job, "v_raise", None) == "listener":
+                    raise RuntimeError("listener failed")
+
+            def service_add(self, service):
+                pass
+
+        if any(s.get("raises") == "listener" for s in w["jobs"]):
+            xp.scheduler.addlistener(RaisingListener())
         # "file": the file-based CounterToken (one directory per token) used within this one scheduler;
         # its acquire/release are separate code from ProcessCounterToken, the scheduler sees the same thing
         kinds = w.get("tokkind") or ["proc"] * len(w["tokens"])
@@ -400,7 +461,8 @@ def run_workload(w):
             depobjs[j] = mine
             for d in mine:
                 cfg.add_dependencies(d)
-            ctl.plan = dict(index=j, code=spec["code"], marker=spec.get("marker", False), adopt=spec.get("adopt"))
+            ctl.plan = dict(index=j, code=spec["code"], marker=spec.get("marker", False), adopt=spec.get("adopt"),
+                            raises=spec.get("raises"))
             objs[j] = cfg
             trace["falsy"][j] = not bool(cfg)     # a task object whose truth value is False (__len__ == 0)
             if w.get("dump_heaps"):
@@ -502,6 +564,16 @@ def run_workload(w):
             elif act[0] in ("wait", "exit"):
                 start_wait(act[0] == "exit")
                 ctl.quiesce(also=wait["thread"] if wait["final"] else None)
+            elif act[0] == "grow":
+                # another process rewrites token.info with a larger total: the file event reaches the token in
+                # the thread of the directory watcher (here: a thread of ours, the watcher being off)
+                from watchdog.events import FileModifiedEvent
+                tok = tokens[act[1]]
+                tok.infopath.write_text(str(act[2]))
+                th = threading.Thread(target=tok.on_modified, args=(FileModifiedEvent(str(tok.infopath)),))
+                th.start()
+                th.join(TIMEOUT)
+                ctl.quiesce(also=wait["thread"] if wait["final"] else None)
             else:
                 raise ValueError(act)
             snap = snapshot(ctl, xp, w, tokens, wait_status())
@@ -511,6 +583,8 @@ def run_workload(w):
         if ctl.nsteps >= w.get("maxsteps", 400):
             trace["ended"] = "maxsteps"          # the run did not come to rest within the bound
         trace["events"] = ctl.events
+        trace["lost"] = [list(x) for x in ctl.lost]
+        trace["foreign"] = sorted(set(ctl.foreign))
         trace["left"] = wait["final"] and wait_status() in ("returned", "raised")
         trace["all_submitted"] = nxt >= njobs
     except Stuck as e:
